@@ -228,7 +228,7 @@ pub fn explore_c11(rep: &Report, finish: bool) -> i32 {
                         continue;
                     }
                     let root = fresh_root(pos, &h);
-                    let d: u8 = if quick { 3 } else { 4 };
+                    let d: u8 = std::env::var("WMC_C11_DEPTH").ok().and_then(|x| x.parse().ok()).unwrap_or(if quick { 5 } else { 6 }); // null-move pruning works from iteration 4 on
                     let run = run_search(&root.board, &root.table, None, d);
                     b_searched.fetch_add(1, Ordering::Relaxed);
                     nodes.fetch_add(run.queries, Ordering::Relaxed);
@@ -461,7 +461,7 @@ pub fn explore_c11(rep: &Report, finish: bool) -> i32 {
     rep.assume("retrograde tables over the rules oracle are exact (validated by the well-known maxima 10 / 16 moves and by forward search at distance <= 2)");
     rep.assume("an info line inside an iteration states the value of the move it names first; the last line of an iteration is the iteration's verdict on the root");
     let rule = format!("every legal non-terminal position of the complete KQK and KRK families{} searched by the real get_best_move to the end of iteration {}; every info line judged against exact distance-to-mate tables", if quick { " with the white king in the a1-d4 quarter" } else { "" }, depth);
-    let rule = format!("{}; plus the back-rank family (kings behind three pawns, one rook each on any back-rank file a-f, one loose black knight/bishop/pawn on any square of ranks 3-6, both sides to move{}) searched to iteration {}: mate in one played, no blunder into mate in one handed back once iteration 2 has finished", rule, if quick { ", every 5th position" } else { "" }, if quick { 3 } else { 4 });
+    let rule = format!("{}; plus the back-rank family (kings behind three pawns, one rook each on any back-rank file a-f, one loose black knight/bishop/pawn on any square of ranks 3-6, both sides to move{}) searched to iteration {}: mate in one played, no blunder into mate in one handed back once iteration 2 has finished", rule, if quick { ", every 5th position" } else { "" }, if quick { 5 } else { 6 });
     let rule = format!("{}; plus every clock-expiry index after the end of iteration 1 on {} roots with a mate in one: the move held always mates; plus every position of the castling / en-passant / promotion families in which such a move mates ({} roots)", rule, sweep_roots.len(), special_mates.len());
     if finish {
         rep.finish(searched.load(Ordering::Relaxed) + b_searched.load(Ordering::Relaxed) + sweep_points.load(Ordering::Relaxed) + sm_searched.load(Ordering::Relaxed), nodes.load(Ordering::Relaxed), rep.get("tb_forward_validations"), true, &rule)
@@ -657,6 +657,55 @@ pub const DEEP_CHAIN_ROOTS: &[(&str, u32, bool)] = &[
     ("BBK5/P3QP1n/1Ppp1PPN/pp1P1rr1/PbR2p1p/p1nkPq1R/4p1b1/3N4 w - - 0 1", 23, true),
 ];
 
+/// Queen-heavy positions with open kings whose depth-2 value depends on check extensions far from the root
+/// (found offline with `wmc checkchainfind` among 1.5 million deterministic scrambles): the number is the
+/// deepest ply at which the reference extends a check below them.
+pub const CHECK_CHAIN_ROOTS: &[(&str, i32)] = &[
+    ("2r1Q3/8/4BQQ1/2q2q2/7q/1K1q4/4k3/6Q1 w - - 0 1", 7),
+    ("1q1R3k/R1r5/Q5K1/8/1qQ2Q1q/1Q6/8/8 b - - 0 1", 8),
+    ("8/q2QQ1Q1/r7/8/4q2q/1Q4q1/2QK4/k6r b - - 0 1", 8),
+    ("3Q4/6K1/q2Q4/7k/q7/8/Q2R1q2/Q6Q b - - 0 1", 9),
+    ("3Q4/6Q1/Q4r1Q/K4q1q/5Q2/4q1qr/6B1/k7 w - - 0 1", 11),
+    ("4k3/1QK5/1R5q/1q6/8/4q1q1/Q2Q1R2/Q3q2Q w - - 0 1", 10),
+    ("Q6Q/1Q5K/4q3/3qq3/7q/5q1R/4k3/BQ6 w - - 0 1", 10),
+    ("8/k1Kq4/q1Q1b3/1Q6/1q5Q/4b1Q1/2Q1q3/6B1 w - - 0 1", 11),
+];
+
+/// which plies a cut of the check extension would be noticed at (coverage statement, like the capture chains)
+fn check_extension_coverage(rep: &Report, h: &ZobristHasher) -> u64 {
+    let roots: Vec<Root> = CHECK_CHAIN_ROOTS.iter().filter_map(|(f, _)| Pos::from_fen(f)).map(|p| fresh_root(&p, h)).collect();
+    let caps: Vec<i32> = (3..=12).collect();
+    let value = |root: &Root, xcap: i32| -> Option<i32> {
+        let succs = crate::move_generation::generate_moves(&root.board, crate::move_generation::MoveGenerationMode::AllMoves, h);
+        let mut r = Ref::new(h, 20_000_000);
+        r.xcap = xcap;
+        let mut table = root.table.clone();
+        let mut best = i32::MIN;
+        for c in &succs {
+            let v = -r.alphabeta(c, 1, 1, -10_000_000, 10_000_000, &mut table);
+            if r.capped {
+                return None;
+            }
+            best = best.max(v);
+        }
+        Some(best)
+    };
+    let jobs: Vec<(usize, usize)> = (0..roots.len()).flat_map(|r| (0..caps.len()).map(move |c| (r, c))).collect();
+    let exact: Vec<Option<i32>> = crate::e4_session::run_parallel(roots.len(), |i| value(&roots[i], i32::MAX));
+    let differs: Vec<bool> = crate::e4_session::run_parallel(jobs.len(), |j| {
+        let (r, c) = jobs[j];
+        match (exact[r], value(&roots[r], caps[c])) {
+            (Some(a), Some(b)) => a != b,
+            _ => false,
+        }
+    });
+    let covered: Vec<i32> = caps.iter().enumerate().filter(|(ci, _)| jobs.iter().enumerate().any(|(j, (_, c))| c == ci && differs[j])).map(|(_, c)| *c).collect();
+    let deepest = covered.iter().max().cloned().unwrap_or(0);
+    rep.set_extra("check_extension_depth_coverage", J::obj().set("plies_at_which_stopping_the_check_extension_is_noticed", J::Arr(covered.iter().map(|c| J::Int(*c as i128)).collect())).set("deepest", J::Int(deepest as i128)).set("meaning", J::s("if checks were no longer extended from ply N on, the depth-2 value of at least one root would change, for every N listed")));
+    rep.add("deepest_ply_with_a_check_extension_witness", deepest as u64);
+    jobs.len() as u64
+}
+
 /// depth-1 value of a root by the reference with its capture extension cut after `qcap` plies
 fn depth1_value(root: &Root, h: &ZobristHasher, qcap: u32) -> Option<i32> {
     let succs = crate::move_generation::generate_moves(&root.board, crate::move_generation::MoveGenerationMode::AllMoves, h);
@@ -720,6 +769,9 @@ fn c12_roots(rep: &Report, h: &ZobristHasher) -> Vec<Root> {
         if *in_quick || !quick {
             roots.push(fresh_root(&Pos::from_fen(f).expect("deep chain fen"), h));
         }
+    }
+    for (f, _) in CHECK_CHAIN_ROOTS {
+        roots.push(fresh_root(&Pos::from_fen(f).expect("check chain fen"), h));
     }
     // capture chains below the horizon of every length up to 22: one square attacked eight times and defended
     // eight times, a second one three against three, and every position obtained by taking away up to k of
@@ -934,7 +986,7 @@ pub fn run_c12(rep: &Report) -> i32 {
             });
         }
     });
-    let coverage_runs = chain_depth_coverage(rep, &h);
+    let coverage_runs = chain_depth_coverage(rep, &h) + check_extension_coverage(rep, &h);
     rep.add("reference_runs_measuring_capture_chain_coverage", coverage_runs);
     rep.add("positions_compared", searched.load(Ordering::Relaxed));
     rep.add("positions_skipped_by_reference_node_cap", skipped.load(Ordering::Relaxed));
@@ -948,7 +1000,7 @@ pub fn run_c12(rep: &Report) -> i32 {
     if skipped.load(Ordering::Relaxed) > 0 {
         rep.note(format!("{} positions skipped because the unpruned reference exceeded {} nodes (not counted as explored)", skipped.load(Ordering::Relaxed), node_cap));
     }
-    let rule = "every root of: KQK/KRK complete families on a stride, the complete K+P v K family with the pawn one or two steps from promotion (both colours, both sides to move), the positions of the castling / en-passant / promotion families in which such a move gives check (on a stride), all move paths of length <= 2/3 from the low-material S1 roots (history preloaded through the real position command), the C07 roots, constructed repetition histories, the two-tower exchange position (one square attacked and defended eight times, one three times) with every set of <= 1/3 participants removed, dense 32-man roots whose value depends on captures up to 23 plies below the horizon (re-measured, see capture_chain_depth_coverage); iterations 1..3 (1..2 above 10 pieces, 1 above 20); each reported (move, score) and each iteration's final score compared with plain negamax";
+    let rule = "every root of: KQK/KRK complete families on a stride, the complete K+P v K family with the pawn one or two steps from promotion (both colours, both sides to move), the positions of the castling / en-passant / promotion families in which such a move gives check (on a stride), all move paths of length <= 2/3 from the low-material S1 roots (history preloaded through the real position command), the C07 roots, constructed repetition histories, the two-tower exchange position (one square attacked and defended eight times, one three times) with every set of <= 1/3 participants removed, dense 32-man roots whose value depends on captures up to 23 plies below the horizon (re-measured, see capture_chain_depth_coverage), queen-heavy roots whose value depends on check extensions up to ply 11 (see check_extension_depth_coverage); iterations 1..3 (1..2 above 10 pieces, 1 above 20); each reported (move, score) and each iteration's final score compared with plain negamax";
     rep.finish(searched.load(Ordering::Relaxed), ref_nodes.load(Ordering::Relaxed), lines.load(Ordering::Relaxed), skipped.load(Ordering::Relaxed) == 0, rule)
 }
 
@@ -1067,5 +1119,93 @@ pub fn chainfind(count: usize, min_d: u32) {
     v.sort();
     for (d, f) in v {
         println!("{} {}", d, f);
+    }
+}
+
+
+/// Development aid (`wmc checkchainfind <count> <min_ply>`): deterministic queen-heavy scrambles with open
+/// kings; prints those whose depth-1 or depth-2 value changes when the reference stops extending checks at
+/// `min_ply`, with the deepest ply at which an extension happened.
+pub fn checkchainfind(count: usize, min_ply: i32) {
+    let h = ZobristHasher::create_zobrist_hasher();
+    let found = std::sync::Mutex::new(Vec::<(i32, u8, String)>::new());
+    let idx = AtomicUsize::new(0);
+    std::thread::scope(|s| {
+        for _ in 0..threads() {
+            s.spawn(|| loop {
+                let i = idx.fetch_add(1, Ordering::Relaxed);
+                if i >= count {
+                    break;
+                }
+                let mut x: u64 = 0xD1B54A32D192ED03u64.wrapping_mul(i as u64 + 1) ^ 0x9E3779B97F4A7C15;
+                let mut next = || {
+                    x ^= x << 13;
+                    x ^= x >> 7;
+                    x ^= x << 17;
+                    x
+                };
+                let mut men: Vec<u8> = Vec::new();
+                for c in [rules::WHITE, rules::BLACK] {
+                    men.push(rules::pc(c, rules::K));
+                    let q = 3 + (next() % 3) as usize;
+                    for _ in 0..q {
+                        men.push(rules::pc(c, rules::Q));
+                    }
+                    for _ in 0..(next() % 3) {
+                        men.push(rules::pc(c, if next() % 2 == 0 { rules::R } else { rules::B }));
+                    }
+                }
+                let mut p = Pos::empty();
+                for &m in &men {
+                    loop {
+                        let sq = (next() % 64) as u8;
+                        if p.b[sq as usize] == rules::EMPTY {
+                            p.b[sq as usize] = m;
+                            break;
+                        }
+                    }
+                }
+                p.stm = if next() % 2 == 0 { rules::WHITE } else { rules::BLACK };
+                if !p.is_legal_position() || p.legal_moves().is_empty() {
+                    continue;
+                }
+                let root = fresh_root(&p, &h);
+                let succs = crate::move_generation::generate_moves(&root.board, crate::move_generation::MoveGenerationMode::AllMoves, &h);
+                for d in [1u8, 2] {
+                    let value = |xcap: i32| -> Option<(i32, i32)> {
+                        let mut r = Ref::new(&h, 3_000_000);
+                        r.xcap = xcap;
+                        let mut table = root.table.clone();
+                        let mut best = i32::MIN;
+                        for c in &succs {
+                            let v = -r.alphabeta(c, d - 1, 1, -10_000_000, 10_000_000, &mut table);
+                            if r.capped {
+                                return None;
+                            }
+                            best = best.max(v);
+                        }
+                        Some((best, r.max_ext_ply))
+                    };
+                    let (exact, deepest) = match value(i32::MAX) {
+                        Some(v) => v,
+                        None => break,
+                    };
+                    if deepest < min_ply {
+                        continue;
+                    }
+                    if let Some((v, _)) = value(min_ply) {
+                        if v != exact {
+                            found.lock().unwrap().push((deepest, d, p.fen()));
+                            break;
+                        }
+                    }
+                }
+            });
+        }
+    });
+    let mut v = found.into_inner().unwrap();
+    v.sort();
+    for (deepest, d, f) in v {
+        println!("{} {} {}", deepest, d, f);
     }
 }
